@@ -115,6 +115,9 @@ def cases(rng, tier):
            "prog": [["sched", 1, [["sched", 2, [["tick", 5]]], ["sched", 3, [["sched", 5, []], ["tick", 3]]], ["rel", 4, 100, []], ["cancel", 2], ["tick", 7]]]]}
     yield {"op": "tr_seq", "sched": "ct", "clock": 0,   # a raising action resets the trampoline; the next schedule starts fresh
            "prog": [["sched", 1, [["sched", 2, [["rel", 4, 5, []], ["raise"]]], ["sched", 3, []]]], ["sched", 5, []]]}
+    # a negative relative delay means "now": it must not overtake the actions already queued for "now"
+    yield {"op": "tr_seq", "sched": "tramp", "clock": 0,
+           "prog": [["sched", 1, [["sched", 2, []], ["sched", 3, []], ["rel", 4, -3, []], ["sched", 5, []]]]]}
     for _ in range(fw.tier_scale(tier, 1500, 15000)):
         yield gen_case(rng)
 
@@ -181,7 +184,7 @@ def oracle(case, out):
         return f"a schedule call raised {out['raised']} although no action raises"
     if out.get("hang"):
         return "the scheduling call did not return (event budget / 60 s) (livelock in the drain loop)"
-    return thr_tramp.oracle_events(out["events"]) or thr_tramp.all_run(out["events"]) or (None if out["idle"] and out["queue"] == 0 else "trampoline not idle/empty after the run")
+    return thr_tramp.oracle_events(out["events"], case["prog"]) or thr_tramp.all_run(out["events"]) or (None if out["idle"] and out["queue"] == 0 else "trampoline not idle/empty after the run")
 
 
 def _has(prog, kinds):
